@@ -240,10 +240,65 @@ def rule_r2(chk, facts):
                 ok, wit = r.guarded(b, i, lambda l: edge_has_atom(l, le7f))
                 chk.ob('C07-R2', 'toolutils.c:ReadRecordHeader:' + name, ok, r.loc(ln),
                        'reconstructed under header <= $7f' if ok else 'reconstruction not limited to header <= $7f')
+                # every reconstructed field this value reads must have been reconstructed before
+                for other, (tgt2, vp2) in recon.items():
+                    if tgt2 != tgt and any(strip(m) == tgt2 for m in walk(n[3]) if m[0] == 'u'):
+                        dom, w2 = r.guarded(b, i, lambda l: False,
+                                            lambda ex, tgt2=tgt2: any(is_assign(m) and strip(m[2]) == tgt2 for m in walk_own(ex)))
+                        chk.ob('C07-R2', 'toolutils.c:ReadRecordHeader:%s:uses-reconstructed-%s' % (name, show(tgt2)),
+                               dom, r.loc(ln), 'operand %s is reconstructed first' % show(tgt2) if dom else
+                               '%s is computed from %s before the short-header branch has set it: the value left over '
+                               'from the previous record is used' % (show(tgt), show(tgt2)))
+                # the header byte must still hold the cpu id when it is copied
+                if name == 'cpu=header':
+                    def hdr_over(ex):
+                        return any(is_assign(m) and strip(m[2]) == D(rp, 0) for m in walk_own(ex))
+                    clobbered = not r.guarded(b, i, lambda l: False, hdr_over)[0] is False
+                    before = r.guarded(b, i, lambda l: False, hdr_over)[0]
+                    chk.ob('C07-R2', 'toolutils.c:ReadRecordHeader:cpu-copied-before-header-rewrite', not before, r.loc(ln),
+                           'cpu id taken before *Header is rewritten' if not before else
+                           '*Header is overwritten before its value is copied to *CPU')
                 found = True
         if not found:
             chk.ob('C07-R2', 'toolutils.c:ReadRecordHeader:' + name, False, r.loc(),
                    'the short header branch never sets ' + show(tgt))
+
+
+def rule_r6(chk, facts):
+    chk.rule('C07-R6', 'in the code-file I/O of the tools the error handler ChkIO()/FormatError() is reached from an '
+             'fread/fwrite call only on the edge on which the call\'s result differs from the requested element '
+             'count (never on the edge on which it succeeded)', min_instances=20)
+    seenf = set()
+    n = 0
+    for exe in ('pbind', 'plist', 'p2bin', 'p2hex', 'alink'):
+        P = facts.program(exe)
+        for f in P.all_funcs():
+            if f.qname in seenf or f.unit.name not in ('toolutils.c', 'pbind.c', 'plist.c', 'p2bin.c', 'p2hex.c', 'alink.c'):
+                continue
+            seenf.add(f.qname)
+            for s_, d_, l in f.edges():
+                if l is None or l[0] not in ('T', 'F'):
+                    continue
+                c = nocast(l[1])
+                calls = [m for m in walk(c) if m[0] == 'call' and callee_name(m) in ('fwrite', 'fread')]
+                if not calls:
+                    continue
+                tgt = f.blocks[d_]
+                if not any(m[0] == 'call' and callee_name(m) in ('ChkIO', 'FormatError') for ln, ex in tgt['elems'] for m in walk_own(ex)):
+                    continue
+                n += 1
+                call = calls[0]
+                cnt = nocast(call[2][2])
+                good = any(a[0] == 'cmp' and a[1] == '!=' and a[2][0] == 'call' and a[2][1] == ('fn', callee_name(call))
+                           and a[3] == cnt for a in atoms(l[1], l[0] == 'T'))
+                ln = f.blocks[s_]['term'][1] if f.blocks[s_].get('term') else f.line
+                key = '%s:%s:%s(%s)' % (f.unit.name, f.name, callee_name(call), show(call[2][0]))
+                chk.ob('C07-R6', key, good, f.loc(ln), 'error handler on result != count' if good else
+                       'ChkIO() is reached when %s(...) returns non-zero, i.e. after a successful transfer: a stale errno '
+                       'aborts the tool (pbind -q ...: "No such file or directory") and real write errors go unnoticed'
+                       % callee_name(call))
+    if n < 10:
+        raise AnalysisBroken('only %d checked fread/fwrite results found' % n)
 
 
 def rule_r45(chk, facts):
@@ -317,5 +372,6 @@ def run(chk, facts, info):
              '(clang format checker, -fsyntax-only)', min_instances=40)
     format_rule(chk, facts, 'C07-R3', ['plist.c', 'pbind.c', 'alink.c'])
     rule_r45(chk, facts)
+    rule_r6(chk, facts)
     chk.note('Decided: field-by-field reader/writer conformance of PBIND, short/long header agreement, bindings of '
              'PLIST\'s printed values and totals, format/argument agreement. Not decided: per-record listing values.')
